@@ -2,12 +2,15 @@
 # run the repository's pinned test-suite (guard off) with xdist and compare with the stable baseline
 # usage: ./tools_baseline.sh [nproc]    -> prints tests of BASELINE.stable_pass that did not pass
 N=${1:-10}
-OUT=/tmp/baseline-junit.xml
-cd /repo && /venv/bin/python -m pytest -q -p no:cacheprovider --timeout=900 --continue-on-collection-errors -n "$N" --junitxml=$OUT > /tmp/baseline-run.log 2>&1
+R=${VP_RUN_REPO:-/repo}
+OUT=${BASELINE_OUT:-/tmp/baseline-junit.xml}
+export BASELINE_OUT=$OUT
+cd "$R" && /venv/bin/python -m pytest -q -p no:cacheprovider --timeout=900 --continue-on-collection-errors -n "$N" --junitxml=$OUT > $OUT.log 2>&1
 /venv/bin/python - <<'PY'
 import json, xml.etree.ElementTree as ET
 base = set(json.load(open('/root/.vp/BASELINE.json'))['stable_pass'])
-t = ET.parse('/tmp/baseline-junit.xml').getroot()
+import os
+t = ET.parse(os.environ['BASELINE_OUT']).getroot()
 passed = set()
 for tc in t.iter('testcase'):
     name = f"{tc.get('classname')}::{tc.get('name')}"
